@@ -31,7 +31,9 @@ def graphs():
     """-> {name: program}; node 'f' mutates its default list, 'g' its default dict."""
     f = T.fn("f", ["x", "acc"], ["out"], defaults={"acc": {"$list": []}}, behav={"py": "list(acc)"}, mutate="acc")
     g = T.fn("g", ["out", "cfg", "d"], ["res"], defaults={"d": {"$list": []}}, behav={"py": "(tuple(out), tuple(d), id(cfg))"}, mutate="d")
-    flat = T.prog([f, g])
+    t = T.fn("t", ["x", "tags"], ["tg"], defaults={"tags": ["a", "b"]}, behav={"py": "tuple(tags)"})
+    u = T.fn("u", ["tg", "slots"], ["sl"], defaults={"slots": [{"$list": []}, "k"]}, behav={"py": "tuple(slots[0])"}, mutate_member="slots")
+    flat = T.prog([f, g, t, u])
     fi = T.fn("fi", ["x", "acc"], ["out"], defaults={"acc": {"$list": []}}, behav={"py": "list(acc)"}, mutate="acc")
     inner = T.prog([fi], name="inr")
     mid = T.prog([T.gnode("inr", inner, rename_in={"x": "xx"})], name="mid")
@@ -62,6 +64,9 @@ class Env:
             m = spec.get("mutate")
             if m:
                 c.args[m].append(("m", spec["name"], len(c.args[m])))
+            mm = spec.get("mutate_member")
+            if mm:
+                c.args[mm][0].append(("mm", spec["name"], len(c.args[mm][0])))
             for p in ("cfg", "x"):
                 if p in c.args:
                     self.recv.append((c.nid, p, id(c.args[p])))
